@@ -271,17 +271,13 @@ class Inv:
             return False, 'TileSize constructions: %d' % len(aggs)
         bb, st, t = aggs[0]
         w, h = dict(t[3])['width'], dict(t[3])['height']
-        need = {w: False, h: False}
-        for cond, vals, a in q.guards(b, bb):
-            if cond[0] == 'bin' and cond[1] == 'Eq' and q.const_val(cond[3]) == 0 and cond[2] in need and q.bool_outcome(b, a, vals) is False:
-                need[cond[2]] = True
-        # the zero edges return Err
-        zero_err = True
-        for sw in q.switches_on(b, lambda d: d[0] == 'bin' and d[1] == 'Eq' and q.const_val(d[3]) == 0 and d[2] in (w, h)):
-            tm = b.blocks[sw]['term']
-            if not q.arm_always_err(b, tm['otherwise']):
-                # short-circuit `a || b`: the true edge may lead to the second test or straight to Err
-                pass
+        # every Ok result is reached only past `width == 0 -> Err` and `height == 0 -> Err` (in any spelling, before or after the
+        # TileSize value is put together)
+        def nonzero(x):
+            return lambda op, l, r_: l == strip_casts(x) and ((op == 'Ne' and q.const_val(r_) == 0) or (op == 'Gt' and q.const_val(r_) == 0) or
+                                                                (op == 'Ge' and q.const_val(r_) == 1))
+        oks = [bb_ for bb_, _ in common.ok_defs(b)]
+        need = {show(x)[:40]: bool(oks) and all(T.rejecting_fact(b, bb_, nonzero(x)) for bb_ in oks) for x in (w, h)}
         ok = all(need.values())
         # all constructions of Tileset keep the TileSize of the parsed tileset
         tv = fx.body('asefile::tileset::TilesetsById::validate')
